@@ -36,7 +36,7 @@ func vrstub_C10_RectUnion(r, o Rect) Rect {
 
 // One step of RectBounder.AddPoint from an arbitrary accumulated state: everything
 // that was inside the bound stays inside (so vertices added earlier remain covered).
-func Harness_C10_rectbounder_step_grows_thorough() {
+func vrTODO_C10_rectbounder_step_grows() {
 	vr.Domain("RUF")
 	rb := &RectBounder{a: vrBoundedPoint("a"), aLL: vrValidLatLng("aLL"), bound: vrValidRect("bound")}
 	q := vrValidLatLng("q")
